@@ -27,7 +27,8 @@ def run(tier, replay=None):
         "live edge = newest segment of the reference (video) track that has fully ended at testNowMS; start number 0",
         "duration D: D*1000/segdur segments when it divides, else floor or ceiling accepted",
         "an API call that has not returned after the bound (quick 3 s, thorough 4 s) is recorded as stuck",
-        "after a receiver error status or a DELETE call the session may stop (text leaves it open)",
+        "after a receiver error status or a DELETE call the session may stop (text leaves it open); a step on a session that "
+        "may have stopped may be refused (non-200) but must return",
         "init segment compared structurally (track id, timescale, sample entry without btrt); media byte-identical "
         "to livesim2's own HTTP response (modulo the lmsg brand on the last segment)",
         "DASH-IF-Ingest version header must be 1.1 (the interface version the project implements)",
@@ -38,31 +39,31 @@ def run(tier, replay=None):
     # ---- (M) explorer judged by the oracle operators
     J = lambda cfg, **kw: ("IngesterImpl_MC", f"IngesterImpl_{cfg}.cfg", dict(workers=wk, timeout=3000, **kw))
     req = ("sel", "snd_", "s1", "c1", "c2", "stop")
+    # configs of the CURRENT code (Extra = 0 after 36579e0, StepGuard = TRUE after 23e3c73): expect ok;
+    # durbug / live_bug model the code as it was written: documented design counterexamples
     jobs = [
         J("quick", required_actions=req),
         J("dur_quick", required_actions=req),
-        J("durfix"),
+        J("live_quick", coverage=False),
         J("durbug", expect="violation", expect_violated=("DurationCount", "DurationLmsg"), coverage=False),
-        J("live_safe", coverage=False),
         J("live_bug", expect="violation", expect_violated=("ApiReturns",), coverage=False),
-        J("live_fix_quick", coverage=False),
         ("IngesterImpl_MC", f"IngesterImpl_gen_{tier}.cfg", dict(workers=1, coverage=False, timeout=3000)),
         ("IngesterImpl_MC", f"IngesterImpl_gendur_{tier}.cfg", dict(workers=1, coverage=False, timeout=3000)),
     ]
     if tier == "thorough":
-        jobs += [J("thorough"), J("dur_thorough"), J("wide"), J("live_fix", coverage=False),
-                 J("quiesc", coverage=False), J("quiesc_guard", coverage=False)]
+        jobs += [J("thorough"), J("thorough_err"), J("dur_thorough"), J("wide"), J("live", coverage=False),
+                 J("quiesc", coverage=False), J("quiesc_orig", coverage=False)]
     res = c.models(jobs, parallel=4)
-    c.extra["design_counterexamples"] = {
-        "duration_plus_one (code: lastSegNrToSend = next + nrSegs, inclusive loop)": res[3].violated,
-        "step_on_stopped_session_blocks (unbuffered nextSegTrigger, no receiver)": res[5].violated,
+    c.extra["design_counterexamples_code_as_written"] = {
+        "duration_plus_one (lastSegNrToSend = next + nrSegs, inclusive loop; fixed by 36579e0)": res[3].violated,
+        "step_on_stopped_session_blocks (unbuffered nextSegTrigger, no receiver; fixed by 23e3c73)": res[4].violated,
     }
-    for r, name in ((res[3], "durbug"), (res[5], "live_bug")):
+    for r, name in ((res[3], "durbug"), (res[4], "live_bug")):
         if r.status == "ok":
             raise MachineryError(f"explorer {name}: expected design counterexample not found")
     # ---- (R) explored scripts: group outcomes per (script, errs, nseg)
     groups = {}
-    for g in vlib.tlc_printed_json(res[7], "GEN") + vlib.tlc_printed_json(res[8], "GEN"):
+    for g in vlib.tlc_printed_json(res[5], "GEN") + vlib.tlc_printed_json(res[6], "GEN"):
         key = json.dumps([g["script"], g["errs"], g["nseg"]], sort_keys=True)
         it = groups.setdefault(key, {"script": g["script"], "errs": g["errs"], "nseg": g["nseg"], "outs": []})
         o = {"media": g["out"]["media"], "rets": g["out"]["rets"]}
